@@ -105,6 +105,36 @@ def local_root(ctx, e, depth=0, stop=()):
     return None
 
 
+def field_root(ctx, e, stop, depth=0, last=None):
+    """like local_root, but also returns the field selected directly on the root local: `&func.range` -> (func, 'range'),
+    the variable of `for b in func.bindings.iter()` -> (func, 'bindings')"""
+    if e is None or depth > 16:
+        return None
+    k = e['k']
+    if k in ('addr', 'unary', 'cast'):
+        return field_root(ctx, e['e'], stop, depth + 1, last)
+    if k == 'mcall':
+        return field_root(ctx, e['recv'], stop, depth + 1, last)
+    if k == 'call' and e['args']:
+        return field_root(ctx, e['args'][0], stop, depth + 1, last)
+    if k == 'field':
+        return field_root(ctx, e['base'], stop, depth + 1, e.get('name') or e.get('field') or last)
+    if k == 'path' and e['p'].get('res') == 'local':
+        hid = e['p']['hid']
+        if hid in stop:
+            return (hid, last)
+        src = ctx.bind.get(hid)
+        if src and src[0] in ('arm', 'let'):
+            return field_root(ctx, src[1], stop, depth + 1, last)
+        if src and src[0] == 'cparam':
+            for parent, lab in reversed(src[3]):
+                if parent['k'] == 'mcall':
+                    r = field_root(ctx, parent['recv'], stop, depth + 1, last)
+                    if r:
+                        return r
+    return None
+
+
 def tag_rec(c, facts, R, prefix_desc=''):
     """every self-recursive function over Tag destructures each variant with nested tags and recurses on every nested field"""
     nested = nested_tag_fields(facts)
@@ -141,6 +171,28 @@ def tag_rec(c, facts, R, prefix_desc=''):
                     if r in bound:
                         v, fld = bound[r]
                         covered.setdefault(v, set()).add(fld)
+        # a variant's payload handed as a whole to a helper of the module (`Tag::Func(func) => occurs_in_func(a, func)`):
+        # the fields the helper hands back to this function are recursed on
+        mod = fn.qname.rsplit('::', 1)[0]
+        for e, anc in hir_walk(fn.hir['body']):
+            if e['k'] != 'call' or callee_id(e) in (None, fn.id):
+                continue
+            h = facts.fns.get(callee_id(e))
+            if h is None or not h.hir or not h.qname.startswith(mod + '::') or '{closure' in h.qname:
+                continue
+            for i, a in enumerate(e['args']):
+                r = local_root(ctx, a, stop=set(bound))
+                if r not in bound or i >= len(h.hir['params']):
+                    continue
+                v = bound[r][0]
+                phids = {hid for hid, _ in pattern_bindings(h.hir['params'][i])}
+                hctx = FnCtx(h)
+                for e2, _ in hir_walk(h.hir['body']):
+                    if e2['k'] == 'call' and callee_id(e2) == fn.id:
+                        for a2 in e2['args']:
+                            fr = field_root(hctx, a2, phids)
+                            if fr and fr[1]:
+                                covered.setdefault(v, set()).add(fr[1])
         short = fn.qname.split('::')[-1]
         for orig in ('occurs', 'unify', 'reduce'):
             t0 = facts.fn({'occurs': 'oal_compiler::inference::unify::occurs', 'unify': 'oal_compiler::inference::unify::unify', 'reduce': 'oal_compiler::inference::union::reduce'}[orig])
